@@ -683,6 +683,48 @@ def _check_reconnect(run, repo, world, mod):
 
 
 def _check_timeout(run, repo, world):
+    # the one unbounded wait of the send path is on rx_idle ("no frame is
+    # being received"): the receiver's state machine must not clear that
+    # event between the bytes of a frame, or a gateway that goes silent
+    # mid-frame blocks every later send for ever with the lock held
+    mod = repo.mod(SER)
+    for pq in (SER + ".DriverLubaRs232.LubaProtocol",
+               SER + ".DriverSCIRS232.SCIRS232Protocol"):
+        pc = world.cls(pq)
+        unb = [n for (nm_, (k_, f_)) in pc.methods.items()
+               for n in ast.walk(f_) if isinstance(n, ast.Await) and
+               unparse(n.value) == "self.rx_idle.wait()"]
+        if not unb:
+            continue
+        # the state for which the rx_state setter sets the event
+        start = None
+        for (nm_, (k_, f_)) in pc.methods.items():
+            pass
+        for n in ast.walk(pc.node):
+            if isinstance(n, ast.If) and any(
+                    unparse(x) == "self.rx_idle.set()" for b in n.body
+                    for x in ast.walk(b)) and isinstance(
+                        n.test, ast.Compare):
+                start = unparse(n.test.comparators[0])
+        clears = []
+        for (nm_, (k_, f_)) in pc.methods.items():
+            for n in ast.walk(f_):
+                if isinstance(n, ast.Assign) and any(
+                        unparse(t_) == "self.rx_state" for t_ in n.targets) \
+                        and unparse(n.value) != start:
+                    clears.append("%s: %s" % (nm_, unparse(n)))
+                if isinstance(n, ast.Call) and unparse(
+                        n.func) == "self.rx_idle.clear" and \
+                        not nm_.startswith("rx_state"):
+                    clears.append("%s: %s" % (nm_, unparse(n)))
+        run.rule("R-TIMEOUT", "")
+        run.ob("R-TIMEOUT", pq + "#rx_idle-never-cleared-mid-frame",
+               start is not None and not clears,
+               "send_dali_command waits on rx_idle without a timeout, and "
+               "the receiver clears it while a frame is in progress (%s): "
+               "a frame cut short by a silent gateway is never finished "
+               "and the wait never ends" % "; ".join(clears[:3]),
+               where(mod, pc.node))
     run.rule("R-TIMEOUT", "serial.py: every await on a gateway-fed queue "
              "inside a lock region is bounded by asyncio.wait_for with a "
              "class timeout constant")
